@@ -34,3 +34,18 @@ Theorem C20_now_timeout_clean :
   let r := run true true [[EStart]; [EWaitTimer]; [EStateTimer]] in
   b_w (fst r) = Done FlowFailed /\ b_ctx (fst r) = CFailed /\ snd r = 0.
 Proof. exact now_timeout_clean. Qed.
+
+(* no event sequence whatever -- repeats of the awaited packet in the same instant, packets after a timer,
+   both timers together -- leaves an exception in the event loop *)
+Theorem C20_no_loop_exceptions : forall hst instants, snd (run true hst instants) = 0.
+Proof. exact no_loop_exceptions. Qed.
+(* regression witness: before c876120 a second copy of the awaited packet in the same instant raised InvalidStateError into the loop *)
+Theorem C20_old_repeat_refuted : snd (run false true [[EStart]; [EMatch; EMatch]]) = 1.
+Proof. exact old_repeat_refuted. Qed.
+
+(* a packet is recognised as at most one phase of the handshake: unrelated binding traffic (a third party's
+   offer, self-addressed or broadcast) is never taken for the accept or the confirm one is waiting for *)
+Theorem C20_phases_exclusive : forall c v d p q, is_phase c v d p = true -> is_phase c v d q = true -> p = q.
+Proof. exact phases_exclusive. Qed.
+Theorem C20_offer_is_not_confirm : forall c v d, is_phase c v d Tender = true -> is_phase c v d Affirm = false.
+Proof. exact offer_is_not_confirm. Qed.
